@@ -48,6 +48,11 @@ def gen_hw_program(rng, straight):
         if k < 0.75:
             v = rng.choice(vars_)
             body.append("store(%s);" % v); return [("P", "STA " + v)]
+        if k < 0.81:
+            # the register forms: load(X) is TXA, store(X) is TAX, load(Y) is TYA, store(Y) is TAY
+            f, reg = rng.choice([("load", "X"), ("store", "X"), ("load", "Y"), ("store", "Y")])
+            body.append("%s(%s);" % (f, reg))
+            return [("P", {"loadX": "TXA ", "storeX": "TAX ", "loadY": "TYA ", "storeY": "TAY "}[f + reg])]
         if k < 0.87:
             t = rng.choice(["NOP", "INX", "LDA #5", "STA a"])
             body.append("asm(\"%s\", %d);" % (t, 1 if t in ("NOP", "INX") else 2)); return [("P", "inline " + t)]
@@ -253,6 +258,10 @@ def run(chk):
             if [g for g in got2 if "@" in g] != [w for w in want2 if "@" in w]:
                 sig = "strobe-unprotected" if False else "explicit-access-missing"
                 chk.fail(sig, "the hardware accesses executed at -O0 are not the ones the source prescribes",
+                         {"source": src, "executed": got2, "prescribed": want2})
+            # the explicit register / memory transfers and inline lines, in order, instruction by instruction
+            elif [g for g in got2 if "@" not in g] != [w for w in want2 if "@" not in w]:
+                chk.fail("explicit-instruction-differs", "the explicit statements executed at -O0 are not the instructions the source prescribes",
                          {"source": src, "executed": got2, "prescribed": want2})
     h.close(); hp.close(); m.close()
     return chk.finish(level="proof", obligations=obligations, trusted_base=TRUSTED,
